@@ -17,7 +17,7 @@ func init() {
 
 func hopByHopTable(r *R) (map[string]bool, ssa.Instruction) {
 	p := r.pkg(mpkg + "/header")
-	g, _ := p.Members["hopByHopHeaders"].(*ssa.Global)
+	g, _ := refGlobal(p, "hopByHopHeaders"), true
 	if g == nil {
 		r.missing("header.hopByHopHeaders")
 	}
@@ -147,6 +147,15 @@ func c06r2(r *R) {
 			}
 			s := site{fname(fn), key}
 			why, ok := allowed[s]
+			if !ok {
+				// the literal may have become a method used as a method value: it is then scanned as part of the
+				// function that builds the modifier
+				for a, w := range allowed {
+					if a.key == key && outerName(a.fn) == fname(fn) && a.fn != fname(fn) {
+						s, why, ok = a, w, true
+					}
+				}
+			}
 			seen[s] = true
 			r.check(ok, fname(fn)+"#writes("+key+")", ins.Pos(), why, "credential header "+key+" is written here, outside the hops that own a credential")
 		})
